@@ -44,7 +44,7 @@ RPC_EXEMPT = {'next_from_generator': 'legacy stub: no server binding and no'
 
 
 def run(ctx: Ctx):
-  for r in (r1, r2, r3, r4, r5, r6, r7, r9):
+  for r in (r1, r2, r3, r4, r5, r6, r7, r9, r13, r14):
     ctx.guard(r)
   from mlmverif.props import c04
   from mlmverif.props._queue import model as qmodel
@@ -71,6 +71,123 @@ def run(ctx: Ctx):
               ' (failure of the remote generator, close), otherwise every later'
               ' evaluation on that client waits for capacity forever (R-C06-8)',
               c06.r8, min_instances=1)
+
+def _subst_locals(fn: ast.AST, e: ast.AST) -> ast.AST:
+  """Replaces local names that have exactly one plain assignment in `fn` by their value."""
+  import copy as _copy
+  defs: dict[str, list] = {}
+  for x in ast.walk(fn):
+    if isinstance(x, ast.Assign) and len(x.targets) == 1 and isinstance(x.targets[0], ast.Name):
+      defs.setdefault(x.targets[0].id, []).append(x.value)
+  params = {a.arg for a in fn.args.posonlyargs + fn.args.args + fn.args.kwonlyargs}
+
+  class T(ast.NodeTransformer):
+    depth = 0
+
+    def visit_Name(self, nd):
+      if isinstance(nd.ctx, ast.Load) and len(defs.get(nd.id, ())) == 1 and self.depth < 4 and not (
+          nd.id in params and any(isinstance(y, ast.Name) and y.id == nd.id for y in ast.walk(defs[nd.id][0]))):
+        self.depth += 1
+        r = self.visit(_copy.deepcopy(defs[nd.id][0]))
+        self.depth -= 1
+        return r
+      return nd
+
+  return T().visit(_copy.deepcopy(e))
+
+
+def r13(ctx: Ctx):
+  rule = 'R-C14-13'
+  ctx.rule(rule, '"returns the same value ... as evaluating it locally" — the wire codec is'
+           ' total: _Pickler.dumps serialises EVERY value with the registered pickler'
+           ' (the only choice it makes is the optional compression, selected by its'
+           ' `compress` flag) and _Pickler.loads always unpickles what it decompressed.'
+           ' A type-based shortcut on one side only (bytes passed through "as already'
+           ' serialised") breaks the round trip for exactly those values: raw bytes come'
+           ' back as UnpicklingError, bytes that happen to be a pickle as another object')
+  ci = ctx.repo.cls(LF, '_Pickler')
+  n = 0
+  for name, codec, wrap in (('dumps', 'dumps', 'gzip.compress'), ('loads', 'loads', 'gzip.decompress')):
+    fi = ci.methods.get(name)
+    if fi is None:
+      raise AnalysisError(f'{rule}: _Pickler.{name} missing')
+    ps = fi.params()
+    val, flag = ps[1], (ps[2] if len(ps) > 2 else None)
+    rets = [x for x in walk_no_nested(fi.node) if isinstance(x, ast.Return) and x.value is not None]
+    if not rets:
+      raise AnalysisError(f'{rule}: _Pickler.{name} returns nothing')
+    for r_ in rets:
+      n += 1
+      e = _subst_locals(fi.node, r_.value)
+
+      def leaves(x):
+        """Payload expressions after peeling compression wrappers and choices made on the flag."""
+        if isinstance(x, ast.IfExp) and flag and any(isinstance(y, ast.Name) and y.id == flag for y in ast.walk(x.test)):
+          yield from leaves(x.body)
+          yield from leaves(x.orelse)
+        elif isinstance(x, ast.Call) and unparse(x.func) == wrap and x.args:
+          yield from leaves(x.args[0])
+        else:
+          yield x
+
+      def is_codec(x):
+        if not (isinstance(x, ast.Call) and isinstance(x.func, ast.Attribute) and x.func.attr == codec and x.args):
+          return False
+        inner = list(leaves(x.args[0])) if name == 'loads' else [x.args[0]]
+        return all(isinstance(y, ast.Name) and y.id == val for y in inner)
+
+      if name == 'dumps':
+        bad = [x for x in leaves(e) if not is_codec(x)]
+      else:
+        bad = [] if is_codec(e) else [e]
+      if bad:
+        ctx.fail(rule, fi, f'_Pickler.{name}: every value goes through the registered pickler',
+                 f'`{unparse(bad[0])[:70]}` is returned by _Pickler.{name} without `.{codec}({val})`: the codec'
+                 ' treats some values specially on this side only, so they do not survive the round trip'
+                 ' (a bytes result of a remote call comes back as an unpickling error or as another object)',
+                 node=r_)
+      else:
+        ctx.ok(rule, fi, f'_Pickler.{name}: {codec}({val}) on every path, compression by flag only', r_)
+  ctx.floor(rule, 2, n)
+
+
+def r14(ctx: Ctx):
+  rule = 'R-C14-14'
+  ctx.rule(rule, '"chains of attribute access, indexing and calls on a remote object behave like'
+           ' on the local object while the object itself stays on the server": dereferencing a'
+           ' handle asks the SERVER every time — on every path to a return of RemoteObject.result_'
+           ' / async_result_ the value comes from a call on self.worker made in that invocation,'
+           ' and nothing fetched is stored on the handle (no store to self attributes /'
+           ' self.__dict__): a memoised first answer goes stale when the server-held object changes')
+  ci = ctx.repo.cls(CU, 'RemoteObject')
+  n = 0
+  for name in ('result_', 'async_result_'):
+    fi = ci.methods.get(name)
+    if fi is None:
+      raise AnalysisError(f'{rule}: RemoteObject.{name} missing')
+    n += 1
+    g = cfgm.cfg_of(fi.node)
+    remote = lambda nd: any(isinstance(x, ast.Call) and unparse(x.func).startswith('self.worker.')
+                            for x in cfgm.node_exprs(nd))
+    w = g.must_pass(g.entry, [g.exit_ret], remote, cfgm.only_normal)
+    stores = [x for x in walk_no_nested(fi.node) if isinstance(x, (ast.Assign, ast.AugAssign)) and any(
+        (isinstance(y, ast.Attribute) and isinstance(y.value, ast.Name) and y.value.id == 'self') or (
+            isinstance(y, ast.Subscript) and 'self.__dict__' in unparse(y.value))
+        for t in (x.targets if isinstance(x, ast.Assign) else [x.target]) for y in ast.walk(t))]
+    setattrs = [x for x in walk_no_nested(fi.node) if isinstance(x, ast.Call) and unparse(x.func) in (
+        'setattr', 'object.__setattr__', 'self.__dict__.update', 'self.__dict__.setdefault')]
+    if w is not None:
+      ctx.fail(rule, fi, f'RemoteObject.{name}: every dereference is a round trip to the worker',
+               f'RemoteObject.{name} can return without calling self.worker (path: '
+               + ' -> '.join(x_.split(':', 2)[-1][:40] for x_ in w[-4:]) + '): the handle answers from a value'
+               ' fetched earlier, which is stale once the object on the server has changed', node=fi.node)
+    elif stores or setattrs:
+      ctx.fail(rule, fi, f'RemoteObject.{name}: nothing fetched is kept on the handle',
+               f'`{unparse((stores or setattrs)[0])[:60]}` stores on the handle inside {name}', node=(stores or setattrs)[0])
+    else:
+      ctx.ok(rule, fi, f'{name}: always asks self.worker, keeps nothing', fi.node)
+  ctx.floor(rule, 2, n)
+
 
 
 def _remote_shared(sub, m):
@@ -664,6 +781,14 @@ from mlmverif.selfcheck import B, OK  # noqa: E402
 _S = 'chainables/courier_server.py'
 _U = 'utils/courier_utils.py'
 VARIANTS = [
+    B('pickler-passes-bytes-through', 'chainables/lazy_fns.py',
+      '    bytes_ = self.default.dumps(value)', '    bytes_ = value if isinstance(value, bytes) else self.default.dumps(value)', 'R-C14-13'),
+    OK('pickler-compress-by-if', 'chainables/lazy_fns.py',
+       '    bytes_ = self.default.dumps(value)\n    return gzip.compress(bytes_, compresslevel=5) if compress else bytes_',
+       '    bytes_ = self.default.dumps(value)\n    return bytes_ if not compress else gzip.compress(bytes_, compresslevel=5)'),
+    B('remote-handle-memoises-first-answer', 'utils/courier_utils.py',
+      '    return self.worker.get_result(self.value)',
+      "    try:\n      return self.__dict__['_result']\n    except KeyError:\n      result = self.__dict__['_result'] = self.worker.get_result(self.value)\n      return result", 'R-C14-14'),
     B('is-timeout-matches-python-timeouts', _U,
       "  return getattr(e, 'code', 0) == 4", "  return isinstance(e, TimeoutError) or getattr(e, 'code', 0) == 4",
       'R-C14-9'),
